@@ -97,6 +97,10 @@ def gen_case(rng, tier, pid, n):
     if want_cool:
         byname = {s.name: s for s in pool}
         forced = [byname[x] for x in rng.sample(["H", "He", "He+", "He++", "H+", "H2"], rng.randint(1, 6))]
+    if pid in ("C01", "C02") and n == 4:
+        byname = {s.name: s for s in pool}
+        forced = forced + [byname[x] for x in ("C-", "C--", "O-", "O--", "C") if x in byname]
+        nsp, nre = max(nsp, 6), max(nre, 10)
     if n > 1 and rng.random() < 0.15:
         # two species whose names differ by letter case only (para-H2 / phosphino, para-H3+ / phosphonium)
         byname = {s.name: s for s in pool}
@@ -110,6 +114,11 @@ def gen_case(rng, tier, pid, n):
     if pid in ("C01", "C02", "C03", "C13") and n > 1 and rng.random() < 0.2:
         config = "third-body-species"
         forced = forced + [netgen.mk([("M", 1)])]
+    elif pid in ("C04", "C01") and n == 5:
+        config = "electron-pseudo"
+        espell = ("e-",)
+        forced = forced + [s for s in pool if s.name in ("H", "H+", "C", "C+")]
+        nsp, nre = max(nsp, 5), max(nre, 8)
     elif n > 1 and rng.random() < 0.15:
         config = "isotopes"
         iso = [netgen.mk([("13C", 1)]), netgen.mk([("13C", 1), ("O", 1)]), netgen.mk([("13C", 1), ("O", 1)], ice=True),
@@ -273,6 +282,8 @@ def config_lists(config="default"):
         return list(DEFAULT_ELEMENTS) + ["M"], [p for p in DEFAULT_PSEUDO if p != "M"]
     if config == "isotopes":      # an isotope as an element of its own: a symbol that starts with digits
         return list(DEFAULT_ELEMENTS) + ["13C"], list(DEFAULT_PSEUDO)
+    if config == "electron-pseudo":     # a user table that lists the electron symbol among the pseudo-elements (the electron is told by its name)
+        return [e for e in DEFAULT_ELEMENTS if e not in ("e", "E")], list(DEFAULT_PSEUDO) + ["e", "E"]
     return list(DEFAULT_ELEMENTS), list(DEFAULT_PSEUDO)
 
 
@@ -681,7 +692,7 @@ def run(pid: str, argv):
         descs = []
         for k in range(3 if tier == "quick" else 20):
             d = c20.gen_desc(chk.rng, k)
-            while k == 0 and d["elements"] == c20.UPPER_ELEMENTS:
+            while k in (0, 1) and d["elements"] == c20.UPPER_ELEMENTS:
                 d = c20.gen_desc(chk.rng, k)
             d["allowed"], d["required"], d["cooling"] = [], [], []
             if d["elements"] != c20.UPPER_ELEMENTS:
@@ -699,6 +710,12 @@ def run(pid: str, argv):
                 d["ode_modifier_cuts"] = [1] if chk.rng.random() < 0.5 else []    # one or two occurrences of the option
             else:
                 d["rate_modifier"] = {"2": "2.0 * zeta"}
+            if k == 1 and d["elements"] != c20.UPPER_ELEMENTS:
+                # a network whose reactions carry no index (plain Reaction objects, UCLCHEM files, KROME files without an idx column):
+                # modifiers are keyed by the position in the reaction list
+                d["files"] = [["".join(re.sub(r"^[^,]*,", "-1   ,", ln, count=1) + "\n" for ln in c.splitlines() if ln.strip()), f] for c, f in d["files"]]
+                d["rate_modifier"] = {"1": "2.5e-10 * sqrt(Tgas)", "3": 0.0}
+                d["unindexed"] = True
             descs.append(d)
         c20.process(chk, descs, [])
     if getattr(chk, "lean_ok", False) and ov_requests:
@@ -1228,7 +1245,7 @@ def slot_identity_check(chk):
     the alias is a legal identifier is C09's question, finding F9)."""
     from naunet.species import Species
     reset_species_state()
-    names = ["H2", "H2*", "oH2", "pH2", "H2+", "H2-", "#H2", "C3H2", "c-C3H2", "l-C3H2", "C3H", "l-C3H", "c-C3H", "CH", "CH*", "CH+",
+    names = ["H2", "H2*", "oH2", "pH2", "H2+", "H2-", "H2--", "#H2", "C-", "C--", "C---", "Si+", "Si++", "GRAIN--", "C3H2", "c-C3H2", "l-C3H2", "C3H", "l-C3H", "c-C3H", "CH", "CH*", "CH+",
              "HC3N", "HC3N*", "O", "O*", "O-", "#O", "He", "He+", "He++", "#CO", "CO", "CO*", "C2H", "l-C2H", "GRAIN0", "GRAIN-", "e-"]
     with silenced():
         sp = [Species(n) for n in names]
